@@ -16,6 +16,7 @@ import Ymq.Lemmas.WiedemannWitness2
 import Ymq.Lemmas.WiedemannKrylov
 import Ymq.Lemmas.WiedemannPrimes
 import Ymq.Lemmas.WiedemannKer
+import Ymq.Lemmas.WiedemannKerAlg
 import Ymq.Props.C06
 
 namespace Ymq.C19Wied
@@ -386,5 +387,57 @@ theorem ker_p256_panics (m : Mat) (p : ℕ) (v0 seq : List ℕ)
   apply kerBig_panic_of_bm _ m p v0 seq h1
   have := Fact.mk hp
   exact (core_none_iff (bigOps_ok p hlt) seq hr).mpr (Or.inr (Or.inl ⟨ha, hz⟩))
+
+
+theorem kerWidth_ge (m : Mat) (p : ℕ) : (65537 : Int) ≤ 2 ^ (kerWidth m p - 1) := by
+  unfold kerWidth
+  simp only
+  split
+  · norm_num
+  · split
+    · norm_num
+    · split <;> norm_num
+
+/-- **`ker_p256` on a matrix that is singular modulo `p`** (`p` prime below `2^244`, Krylov
+sequence with two non-zero terms — the situation the function is written for). If the Krylov
+loop, the Horner loop and the last product do not overflow (they return), then:
+Berlekamp–Massey does not panic; `assert!(c0.is_zero())` holds; when `charpoly[size-1] = 0` the
+answer is `None`; otherwise the polynomial read IS the reversed characteristic polynomial of `M`
+modulo `p`, the assert `M v = 0` holds by Cayley–Hamilton, and the answer is `Some(v)` with
+`v = Σ_{t<n} c_t M^(n-1-t) v0` — unless that vector is zero, the only remaining panic
+(`assert!(v.iter().any(..))`, an unlucky start vector). -/
+theorem ker_p256_singular (rows m : Mat) (hm : mkMat rows = some m) (hn : 1 ≤ m.length) (p : ℕ)
+    [Fact p.Prime] (hlt : p < 2 ^ 244) (hdet : (matOf p m.length m).det = 0) (seq : List ℕ)
+    (h1 : krylovBig (kerWidth m p) m p (2 * m.length + 1) (startVec m.length 0 1) [] = some seq)
+    (h2 : TwoTerms seq) (v0 : List ℕ) (hl0 : v0.length = m.length) (hv0 : ∀ x ∈ v0, x < p) :
+    ∃ cp, bmBig p seq = some cp ∧ cp.getD m.length 0 = 0 ∧
+      (cp.getD (m.length - 1) 0 = 0 → kerP256 m p v0 = some none) ∧
+      (cp.getD (m.length - 1) 0 ≠ 0 → ∀ v z,
+        hornerBig (kerWidth m p) m p cp v0 (m.length - 1) 1 v0 = some v →
+        mulpBig (kerWidth m p) m p v = some z →
+        kerP256 m p v0 = if v.any (· != 0) then some (some v) else none) := by
+  obtain ⟨_, _, hval⟩ := mkMat_valid rows m hm
+  have hcols : ∀ r ∈ m, ∀ je ∈ r, je.1 < m.length := fun r hr je hje => (hval r hr je hje).1
+  have hpw := kerWidth_bound m p (lt_trans hlt (by norm_num))
+  obtain ⟨cp, b1, b2, b3, b4⟩ := kerBig_singular (kerWidth m p) hlt hpw (kerWidth_ge m p) m hcols
+    hn hdet seq h1 h2
+  have hp0 : 0 < p := (Fact.out : p.Prime).pos
+  have hi0 : cp[m.length]? = some 0 := by
+    rw [getElem?_of_lt cp m.length (by omega)]; exact congrArg some b3
+  have hi1 : cp[m.length - 1]? = some (cp.getD (m.length - 1) 0) :=
+    getElem?_of_lt cp (m.length - 1) (by omega)
+  refine ⟨cp, b1, b3, fun hc1 => ?_, fun hc1 v z hh hmz => ?_⟩
+  · exact (kerBig_none_iff _ m p v0).mpr ⟨seq, cp, h1, b1, hi0, by rw [hi1, hc1]⟩
+  · have hred0 : RedVec p m.length v0 := by
+      refine ⟨hl0, fun j => ?_⟩
+      exact red_of_mem hp0 v0 hv0 j
+    have hz := b4 hc1 v0 v z hred0 hh hmz
+    have hall : (z.all (· == 0)) = true := by
+      rw [List.all_eq_true]; intro x hx; simp [hz x hx]
+    unfold kerP256 kerBig
+    simp only [h1, b1, hi0, hi1, ne_eq, not_true_eq_false, if_false, hc1, hl0, hh, hmz, hall]
+    by_cases ha : (v.any (· != 0)) = true
+    · simp [ha]
+    · simp [ha]
 
 end Ymq.C19Wied
